@@ -282,6 +282,17 @@ def rule_inputs(ctx):
     si = [s for s in tl[0].body if isinstance(s, ast.Assign) and dotted(s.targets[0]) == "sample_input"]
     ctx.check(len(si) == 1 and isinstance(si[0].value, ast.List) and not si[0].value.elts and tl[0].body.index(si[0]) < tl[0].body.index(gens[0]), R, f,
               "inputs reset per trial", "the input list is rebuilt for every trial", "sample_input is not reset at the start of every trial")
+    # every draw starts from a reset distribution: reset() is called per factor, inside the draw, before its trial loop
+    resets_ = [c for c in ast.walk(outer[0]) if isinstance(c, ast.Call) and call_attr(c) == "reset" and not c.args]
+    dists = F.assigns("dist")
+    ok = len(resets_) == 1 and dotted(resets_[0].func.value) == "dist" and dists == ["%s.get_distribution()" % cf]
+    if ok:
+        holder = [s for s in outer[0].body if any(x is resets_[0] for x in ast.walk(s))]
+        ok = len(holder) == 1 and outer[0].body.index(holder[0]) < outer[0].body.index(tl[0]) and not any(x is resets_[0] for x in ast.walk(tl[0]))
+        if ok and isinstance(holder[0], ast.If):
+            ok = ast.unparse(holder[0].test) in ("hasattr(dist, 'reset')", "hasattr(dist, \"reset\")") and not holder[0].orelse
+    ctx.check(ok, R, f, "reset per draw", "each factor's distribution is reset inside every draw, before its first trial (stateful distributions restart with the sequence)",
+              "the distribution of a factor is not reset (exactly once, before the trial loop) inside _sample_continuous: a rejected draw leaks state into the next one")
     # dependencies iterate over cFactor.get_levels()
     deps = F.assigns("dependents")
     ctx.check(deps == ["%s.get_levels()" % cf], R, f, "dependencies", "inputs are the factor's declared dependencies, in order", "dependents is %s" % deps)
@@ -400,6 +411,6 @@ def check(ctx):
                                            "                    factor_idx[-k] = dependent_dict[f.name][idx-k-1]\n                outlist.append(factor_idx)\n        if"), "C22.window")
     ctx.min_instances("C22.loop", 8)
     ctx.min_instances("C22.check", 8)
-    ctx.min_instances("C22.inputs", 12)
+    ctx.min_instances("C22.inputs", 13)
     ctx.min_instances("C22.window", 8)
     ctx.min_instances("C22.merge", 5)
